@@ -9,6 +9,8 @@
   guest stream is never rejected whatever the filter (`C13_never_rejects`).
 -/
 import TT.Props.C01
+import TT.Lemmas.FilterBase
+import TT.Lemmas.FilterFE
 
 namespace TT
 
@@ -88,13 +90,883 @@ def renumberFrom (ρ : AMap Nat Nat) : List HostCall → List HostCall
 def nativeLogFiltered (maxLevel : Option Nat) (sites : List CallSite) (ops : List POp) : List HostCall :=
   (nonReg (nativeRun maxLevel sites ops).log.reverse).map (·.mapMeta (canonK sites))
 
+/-! ### Proof of `C13_faithful` (helper lemmas; see also TT/Lemmas/Filter*.lean) -/
+
+/-- Fold states of the two sides of the comparison, and the correspondence between the host ids
+    of the unfiltered run (`U`) and of the filtered run (`F`). -/
+structure FSt where
+  nU : Nat
+  nF : Nat
+  pairs : List (Nat × Nat)
+  cU : AMap Nat Nat
+  dead : List Nat
+  rU : AMap Nat Nat
+  cF : AMap Nat Nat
+  rF : AMap Nat Nat
+
+def fl_PU (L : Option Nat) (sites : List CallSite) (cU : AMap Nat Nat) (dead : List Nat) (rU : AMap Nat Nat)
+    (xs : List HostCall) : List HostCall :=
+  renumberFrom rU ((eraseDisabledFrom L sites dead (rcNormalizeFrom cU
+    (((nonReg xs).map (·.mapMeta (canonK sites))).map fun c => c.widen.rootAsCtx))).map (·.maskParent))
+
+def fl_PF (sites : List CallSite) (cF rF : AMap Nat Nat) (ys : List HostCall) : List HostCall :=
+  renumberFrom rF ((rcNormalizeFrom cF
+    (((nonReg ys).map (·.mapMeta (canonK sites))).map (·.widen))).map (·.maskParent))
+
+theorem fl_siteEnabled_canon (L : Option Nat) (sites : List CallSite) (k : Nat) :
+    siteEnabled L sites (canonK sites k) = siteEnabled L sites k := by
+  unfold siteEnabled
+  rw [fl_canon_site]
+
+section unfold
+variable (L : Option Nat) (sites : List CallSite) (cU : AMap Nat Nat) (dead : List Nat) (rU cF rF : AMap Nat Nat)
+
+theorem fl_PU_reg (k : Nat) (xs : List HostCall) :
+    fl_PU L sites cU dead rU (.register k :: xs) = fl_PU L sites cU dead rU xs := by
+  simp [fl_PU, nonReg, HostCall.isRegister]
+
+theorem fl_PF_reg (k : Nat) (xs : List HostCall) :
+    fl_PF sites cF rF (.register k :: xs) = fl_PF sites cF rF xs := by
+  simp [fl_PF, nonReg, HostCall.isRegister]
+
+theorem fl_PU_newEn (u k : Nat) (p : HParent) (v : RawVals) (xs : List HostCall)
+    (h : siteEnabled L sites k = true) :
+    fl_PU L sites cU dead rU (.newSpan u k p v :: xs) =
+      .newSpan (rU.length + 1) (canonK sites k) .ctx (widenVals v) ::
+        fl_PU L sites (cU.insert u 1) dead (rU.insert u (rU.length + 1)) xs := by
+  simp [fl_PU, nonReg, HostCall.isRegister, HostCall.mapMeta, HostCall.widen, HostCall.rootAsCtx,
+    rcNormalizeFrom, eraseDisabledFrom, fl_siteEnabled_canon, h, HostCall.maskParent, renumberFrom]
+
+theorem fl_PU_newDis (u k : Nat) (p : HParent) (v : RawVals) (xs : List HostCall)
+    (h : siteEnabled L sites k = false) :
+    fl_PU L sites cU dead rU (.newSpan u k p v :: xs) =
+        fl_PU L sites (cU.insert u 1) (u :: dead) rU xs := by
+  simp [fl_PU, nonReg, HostCall.isRegister, HostCall.mapMeta, HostCall.widen, HostCall.rootAsCtx,
+    rcNormalizeFrom, eraseDisabledFrom, fl_siteEnabled_canon, h]
+
+theorem fl_PF_new (f k : Nat) (p : HParent) (v : RawVals) (ys : List HostCall) :
+    fl_PF sites cF rF (.newSpan f k p v :: ys) =
+      .newSpan (rF.length + 1) (canonK sites k) .ctx (widenVals v) ::
+        fl_PF sites (cF.insert f 1) (rF.insert f (rF.length + 1)) ys := by
+  simp [fl_PF, nonReg, HostCall.isRegister, HostCall.mapMeta, HostCall.widen,
+    rcNormalizeFrom, HostCall.maskParent, renumberFrom]
+
+theorem fl_PU_evtEn (k : Nat) (p : HParent) (v : RawVals) (xs : List HostCall)
+    (h : siteEnabled L sites k = true) :
+    fl_PU L sites cU dead rU (.event k p v :: xs) =
+      .event (canonK sites k) .ctx (widenVals v) :: fl_PU L sites cU dead rU xs := by
+  simp [fl_PU, nonReg, HostCall.isRegister, HostCall.mapMeta, HostCall.widen, HostCall.rootAsCtx,
+    rcNormalizeFrom, eraseDisabledFrom, fl_siteEnabled_canon, h, HostCall.maskParent, renumberFrom]
+
+theorem fl_PU_evtDis (k : Nat) (p : HParent) (v : RawVals) (xs : List HostCall)
+    (h : siteEnabled L sites k = false) :
+    fl_PU L sites cU dead rU (.event k p v :: xs) = fl_PU L sites cU dead rU xs := by
+  simp [fl_PU, nonReg, HostCall.isRegister, HostCall.mapMeta, HostCall.widen, HostCall.rootAsCtx,
+    rcNormalizeFrom, eraseDisabledFrom, fl_siteEnabled_canon, h]
+
+theorem fl_PF_evt (k : Nat) (p : HParent) (v : RawVals) (ys : List HostCall) :
+    fl_PF sites cF rF (.event k p v :: ys) =
+      .event (canonK sites k) .ctx (widenVals v) :: fl_PF sites cF rF ys := by
+  simp [fl_PF, nonReg, HostCall.isRegister, HostCall.mapMeta, HostCall.widen,
+    rcNormalizeFrom, HostCall.maskParent, renumberFrom]
+
+theorem fl_PU_record (u : Nat) (v : RawVals) (xs : List HostCall) (h : u ∉ dead) :
+    fl_PU L sites cU dead rU (.record u v :: xs) =
+      .record (renameId rU u) (widenVals v) :: fl_PU L sites cU dead rU xs := by
+  simp [fl_PU, nonReg, HostCall.isRegister, HostCall.mapMeta, HostCall.widen, HostCall.rootAsCtx,
+    rcNormalizeFrom, eraseDisabledFrom, HostCall.subject, h, HostCall.maskParent, renumberFrom]
+
+theorem fl_PU_recordD (u : Nat) (v : RawVals) (xs : List HostCall) (h : u ∈ dead) :
+    fl_PU L sites cU dead rU (.record u v :: xs) = fl_PU L sites cU dead rU xs := by
+  simp [fl_PU, nonReg, HostCall.isRegister, HostCall.mapMeta, HostCall.widen, HostCall.rootAsCtx,
+    rcNormalizeFrom, eraseDisabledFrom, HostCall.subject, h]
+
+theorem fl_PF_record (f : Nat) (v : RawVals) (ys : List HostCall) :
+    fl_PF sites cF rF (.record f v :: ys) =
+      .record (renameId rF f) (widenVals v) :: fl_PF sites cF rF ys := by
+  simp [fl_PF, nonReg, HostCall.isRegister, HostCall.mapMeta, HostCall.widen,
+    rcNormalizeFrom, HostCall.maskParent, renumberFrom]
+
+theorem fl_PU_enter (u : Nat) (xs : List HostCall) (h : u ∉ dead) :
+    fl_PU L sites cU dead rU (.enter u :: xs) = .enter (renameId rU u) :: fl_PU L sites cU dead rU xs := by
+  simp [fl_PU, nonReg, HostCall.isRegister, HostCall.mapMeta, HostCall.widen, HostCall.rootAsCtx,
+    rcNormalizeFrom, eraseDisabledFrom, HostCall.subject, h, HostCall.maskParent, renumberFrom]
+
+theorem fl_PU_enterD (u : Nat) (xs : List HostCall) (h : u ∈ dead) :
+    fl_PU L sites cU dead rU (.enter u :: xs) = fl_PU L sites cU dead rU xs := by
+  simp [fl_PU, nonReg, HostCall.isRegister, HostCall.mapMeta, HostCall.widen, HostCall.rootAsCtx,
+    rcNormalizeFrom, eraseDisabledFrom, HostCall.subject, h]
+
+theorem fl_PF_enter (f : Nat) (ys : List HostCall) :
+    fl_PF sites cF rF (.enter f :: ys) = .enter (renameId rF f) :: fl_PF sites cF rF ys := by
+  simp [fl_PF, nonReg, HostCall.isRegister, HostCall.mapMeta, HostCall.widen,
+    rcNormalizeFrom, HostCall.maskParent, renumberFrom]
+
+theorem fl_PU_exit (u : Nat) (xs : List HostCall) (h : u ∉ dead) :
+    fl_PU L sites cU dead rU (.exit u :: xs) = .exit (renameId rU u) :: fl_PU L sites cU dead rU xs := by
+  simp [fl_PU, nonReg, HostCall.isRegister, HostCall.mapMeta, HostCall.widen, HostCall.rootAsCtx,
+    rcNormalizeFrom, eraseDisabledFrom, HostCall.subject, h, HostCall.maskParent, renumberFrom]
+
+theorem fl_PU_exitD (u : Nat) (xs : List HostCall) (h : u ∈ dead) :
+    fl_PU L sites cU dead rU (.exit u :: xs) = fl_PU L sites cU dead rU xs := by
+  simp [fl_PU, nonReg, HostCall.isRegister, HostCall.mapMeta, HostCall.widen, HostCall.rootAsCtx,
+    rcNormalizeFrom, eraseDisabledFrom, HostCall.subject, h]
+
+theorem fl_PF_exit (f : Nat) (ys : List HostCall) :
+    fl_PF sites cF rF (.exit f :: ys) = .exit (renameId rF f) :: fl_PF sites cF rF ys := by
+  simp [fl_PF, nonReg, HostCall.isRegister, HostCall.mapMeta, HostCall.widen,
+    rcNormalizeFrom, HostCall.maskParent, renumberFrom]
+
+theorem fl_PU_follows (u u' : Nat) (xs : List HostCall) (h : u ∉ dead) (h' : u' ∉ dead) :
+    fl_PU L sites cU dead rU (.follows u u' :: xs) =
+      .follows (renameId rU u) (renameId rU u') :: fl_PU L sites cU dead rU xs := by
+  simp [fl_PU, nonReg, HostCall.isRegister, HostCall.mapMeta, HostCall.widen, HostCall.rootAsCtx,
+    rcNormalizeFrom, eraseDisabledFrom, h, h', HostCall.maskParent, renumberFrom]
+
+theorem fl_PU_followsD (u u' : Nat) (xs : List HostCall) (h : u ∈ dead ∨ u' ∈ dead) :
+    fl_PU L sites cU dead rU (.follows u u' :: xs) = fl_PU L sites cU dead rU xs := by
+  simp [fl_PU, nonReg, HostCall.isRegister, HostCall.mapMeta, HostCall.widen, HostCall.rootAsCtx,
+    rcNormalizeFrom, eraseDisabledFrom, h]
+
+theorem fl_PF_follows (f f' : Nat) (ys : List HostCall) :
+    fl_PF sites cF rF (.follows f f' :: ys) =
+      .follows (renameId rF f) (renameId rF f') :: fl_PF sites cF rF ys := by
+  simp [fl_PF, nonReg, HostCall.isRegister, HostCall.mapMeta, HostCall.widen,
+    rcNormalizeFrom, HostCall.maskParent, renumberFrom]
+
+theorem fl_PU_clone (u : Nat) (xs : List HostCall) :
+    fl_PU L sites cU dead rU (.clone u :: xs) =
+      fl_PU L sites (cU.insert u ((cU.get u).getD 0 + 1)) dead rU xs := by
+  simp [fl_PU, nonReg, HostCall.isRegister, HostCall.mapMeta, HostCall.widen, HostCall.rootAsCtx,
+    rcNormalizeFrom]
+
+theorem fl_PF_clone (f : Nat) (ys : List HostCall) :
+    fl_PF sites cF rF (.clone f :: ys) =
+      fl_PF sites (cF.insert f ((cF.get f).getD 0 + 1)) rF ys := by
+  simp [fl_PF, nonReg, HostCall.isRegister, HostCall.mapMeta, HostCall.widen, rcNormalizeFrom]
+
+theorem fl_PU_close (u : Nat) (xs : List HostCall) (h : u ∉ dead) :
+    fl_PU L sites cU dead rU (.tryClose u :: xs) =
+      if (cU.get u).getD 0 - 1 = 0 then
+        .tryClose (renameId rU u) :: fl_PU L sites (cU.erase u) dead rU xs
+      else fl_PU L sites (cU.insert u ((cU.get u).getD 0 - 1)) dead rU xs := by
+  by_cases hc : (cU.get u).getD 0 - 1 = 0
+  · simp [fl_PU, nonReg, HostCall.isRegister, HostCall.mapMeta, HostCall.widen, HostCall.rootAsCtx,
+      rcNormalizeFrom, eraseDisabledFrom, HostCall.subject, h, hc, HostCall.maskParent, renumberFrom]
+  · simp [fl_PU, nonReg, HostCall.isRegister, HostCall.mapMeta, HostCall.widen, HostCall.rootAsCtx,
+      rcNormalizeFrom, hc]
+
+theorem fl_PU_closeD (u : Nat) (xs : List HostCall) (h : u ∈ dead) :
+    fl_PU L sites cU dead rU (.tryClose u :: xs) =
+      fl_PU L sites (if (cU.get u).getD 0 - 1 = 0 then cU.erase u
+                     else cU.insert u ((cU.get u).getD 0 - 1)) dead rU xs := by
+  by_cases hc : (cU.get u).getD 0 - 1 = 0
+  · simp [fl_PU, nonReg, HostCall.isRegister, HostCall.mapMeta, HostCall.widen, HostCall.rootAsCtx,
+      rcNormalizeFrom, eraseDisabledFrom, HostCall.subject, h, hc]
+  · simp [fl_PU, nonReg, HostCall.isRegister, HostCall.mapMeta, HostCall.widen, HostCall.rootAsCtx,
+      rcNormalizeFrom, hc]
+
+theorem fl_PF_close (f : Nat) (ys : List HostCall) :
+    fl_PF sites cF rF (.tryClose f :: ys) =
+      if (cF.get f).getD 0 - 1 = 0 then
+        .tryClose (renameId rF f) :: fl_PF sites (cF.erase f) rF ys
+      else fl_PF sites (cF.insert f ((cF.get f).getD 0 - 1)) rF ys := by
+  by_cases hc : (cF.get f).getD 0 - 1 = 0
+  · simp [fl_PF, nonReg, HostCall.isRegister, HostCall.mapMeta, HostCall.widen,
+      rcNormalizeFrom, hc, HostCall.maskParent, renumberFrom]
+  · simp [fl_PF, nonReg, HostCall.isRegister, HostCall.mapMeta, HostCall.widen,
+      rcNormalizeFrom, hc]
+
+end unfold
+
+
+structure fl_AInv (a : FSt) : Prop where
+  bound : ∀ p ∈ a.pairs, p.1 < a.nU ∧ p.2 < a.nF
+  inj : ∀ p ∈ a.pairs, ∀ q ∈ a.pairs, (p.1 = q.1 ↔ p.2 = q.2)
+  alive : ∀ p ∈ a.pairs, p.1 ∉ a.dead
+  deadB : ∀ d ∈ a.dead, d < a.nU
+  cnt : ∀ p ∈ a.pairs, a.cU.get p.1 = a.cF.get p.2
+  ren : ∀ p ∈ a.pairs, a.rU.get p.1 = a.rF.get p.2
+  len : a.rU.length = a.rF.length
+  freshU : ∀ x, a.nU ≤ x → a.rU.get x = none
+  freshF : ∀ y, a.nF ≤ y → a.rF.get y = none
+
+/-- From state `a`, the unfiltered side consuming `newU` and the filtered side consuming `newF`
+    produce the same output and arrive at state `a'`. -/
+def fl_Bridge (L : Option Nat) (sites : List CallSite) (a : FSt) (newU newF : List HostCall) (a' : FSt) : Prop :=
+  fl_AInv a' ∧ ∀ xs ys, fl_PU L sites a'.cU a'.dead a'.rU xs = fl_PF sites a'.cF a'.rF ys →
+    fl_PU L sites a.cU a.dead a.rU (newU ++ xs) = fl_PF sites a.cF a.rF (newF ++ ys)
+
+theorem fl_bridge_refl (L sites) (a : FSt) (hA : fl_AInv a) : fl_Bridge L sites a [] [] a :=
+  ⟨hA, fun _ _ h => h⟩
+
+theorem fl_bridge_trans (L sites) (a a' a'' : FSt) (n1 m1 n2 m2 : List HostCall)
+    (h1 : fl_Bridge L sites a n1 m1 a') (h2 : fl_Bridge L sites a' n2 m2 a'') :
+    fl_Bridge L sites a (n1 ++ n2) (m1 ++ m2) a'' := by
+  refine ⟨h2.1, fun xs ys h => ?_⟩
+  rw [List.append_assoc, List.append_assoc]
+  exact h1.2 _ _ (h2.2 _ _ h)
+
+theorem fl_bridge_regCalls (L sites) (a : FSt) (hA : fl_AInv a) (reg : List Nat) (k : Nat) :
+    fl_Bridge L sites a (fl_regCalls reg k) (fl_regCalls reg k) a := by
+  refine ⟨hA, fun xs ys h => ?_⟩
+  unfold fl_regCalls
+  split
+  · exact h
+  · simp only [List.cons_append, List.nil_append, fl_PU_reg, fl_PF_reg]
+    exact h
+
+theorem fl_bridge_reg (L sites) (a : FSt) (hA : fl_AInv a) (k : Nat) :
+    fl_Bridge L sites a [.register k] [.register k] a := by
+  refine ⟨hA, fun xs ys h => ?_⟩
+  simp only [List.cons_append, List.nil_append, fl_PU_reg, fl_PF_reg]
+  exact h
+
+theorem fl_rename_eq (a : FSt) (hA : fl_AInv a) (u f : Nat) (hp : (u, f) ∈ a.pairs) :
+    renameId a.rU u = renameId a.rF f := by
+  unfold renameId
+  rw [hA.ren _ hp]
+
+theorem fl_bridge_newEn (L sites) (a : FSt) (hA : fl_AInv a) (k : Nat) (pU pF : HParent) (v : RawVals)
+    (h : siteEnabled L sites k = true) :
+    fl_Bridge L sites a [.newSpan a.nU k pU v] [.newSpan a.nF k pF v]
+      { a with nU := a.nU + 1, nF := a.nF + 1, pairs := (a.nU, a.nF) :: a.pairs,
+               cU := a.cU.insert a.nU 1, cF := a.cF.insert a.nF 1,
+               rU := a.rU.insert a.nU (a.rU.length + 1), rF := a.rF.insert a.nF (a.rF.length + 1) } := by
+  constructor
+  · constructor
+    · intro p hp
+      rcases List.mem_cons.1 hp with rfl | hp
+      · exact ⟨Nat.lt_succ_self _, Nat.lt_succ_self _⟩
+      · have := hA.bound p hp
+        exact ⟨Nat.lt_succ_of_lt this.1, Nat.lt_succ_of_lt this.2⟩
+    · intro p hp q hq
+      rcases List.mem_cons.1 hp with rfl | hp <;> rcases List.mem_cons.1 hq with rfl | hq
+      · simp
+      · have := hA.bound q hq
+        simp only
+        constructor <;> intro e <;> omega
+      · have := hA.bound p hp
+        simp only
+        constructor <;> intro e <;> omega
+      · exact hA.inj p hp q hq
+    · intro p hp
+      rcases List.mem_cons.1 hp with rfl | hp
+      · intro hd
+        exact Nat.lt_irrefl _ (hA.deadB _ hd)
+      · exact hA.alive p hp
+    · intro d hd
+      exact Nat.lt_succ_of_lt (hA.deadB d hd)
+    · intro p hp
+      simp only [AMap.get_insert]
+      rcases List.mem_cons.1 hp with rfl | hp
+      · simp
+      · have := hA.bound p hp
+        rw [if_neg (by omega), if_neg (by omega)]
+        exact hA.cnt p hp
+    · intro p hp
+      simp only [AMap.get_insert]
+      rcases List.mem_cons.1 hp with rfl | hp
+      · simp [hA.len]
+      · have := hA.bound p hp
+        rw [if_neg (by omega), if_neg (by omega)]
+        exact hA.ren p hp
+    · simp only
+      rw [fl_insert_length _ _ _ (hA.freshU _ (Nat.le_refl _)),
+        fl_insert_length _ _ _ (hA.freshF _ (Nat.le_refl _)), hA.len]
+    · intro x hx
+      simp only at hx
+      simp only [AMap.get_insert]
+      rw [if_neg (by omega)]
+      exact hA.freshU x (by omega)
+    · intro x hx
+      simp only at hx
+      simp only [AMap.get_insert]
+      rw [if_neg (by omega)]
+      exact hA.freshF x (by omega)
+  · intro xs ys hxy
+    simp only [List.cons_append, List.nil_append]
+    rw [fl_PU_newEn L sites _ _ _ _ _ _ _ _ h, fl_PF_new, hA.len]
+    simp only [hA.len] at hxy
+    rw [hxy]
+
+theorem fl_bridge_newDis (L sites) (a : FSt) (hA : fl_AInv a) (k : Nat) (p : HParent) (v : RawVals)
+    (h : siteEnabled L sites k = false) :
+    fl_Bridge L sites a [.newSpan a.nU k p v] []
+      { a with nU := a.nU + 1, dead := a.nU :: a.dead, cU := a.cU.insert a.nU 1 } := by
+  constructor
+  · constructor
+    · intro p hp
+      have := hA.bound p hp
+      exact ⟨Nat.lt_succ_of_lt this.1, this.2⟩
+    · exact hA.inj
+    · intro p hp hd
+      rcases List.mem_cons.1 hd with e | hd
+      · have := hA.bound p hp
+        omega
+      · exact hA.alive p hp hd
+    · intro d hd
+      rcases List.mem_cons.1 hd with rfl | hd
+      · exact Nat.lt_succ_self _
+      · exact Nat.lt_succ_of_lt (hA.deadB d hd)
+    · intro p hp
+      simp only [AMap.get_insert]
+      have := hA.bound p hp
+      rw [if_neg (by omega)]
+      exact hA.cnt p hp
+    · exact hA.ren
+    · exact hA.len
+    · intro x hx
+      exact hA.freshU x (by simp only at hx; omega)
+    · exact hA.freshF
+  · intro xs ys hxy
+    simp only [List.cons_append, List.nil_append]
+    rw [fl_PU_newDis L sites _ _ _ _ _ _ _ _ h]
+    exact hxy
+
+theorem fl_ainv_cnt (a : FSt) (hA : fl_AInv a) (cU' cF' : AMap Nat Nat)
+    (h : ∀ p ∈ a.pairs, cU'.get p.1 = cF'.get p.2) : fl_AInv { a with cU := cU', cF := cF' } :=
+  ⟨hA.bound, hA.inj, hA.alive, hA.deadB, h, hA.ren, hA.len, hA.freshU, hA.freshF⟩
+
+/-- Updating the handle counts of a corresponding pair of ids in the same way. -/
+theorem fl_cnt_pair (a : FSt) (hA : fl_AInv a) (u f : Nat) (hp : (u, f) ∈ a.pairs)
+    (g : AMap Nat Nat → Nat → AMap Nat Nat) (x : Option Nat)
+    (hg : ∀ (m : AMap Nat Nat) (k k' : Nat), (g m k).get k' = if k' = k then x else m.get k') :
+    ∀ p ∈ a.pairs, (g a.cU u).get p.1 = (g a.cF f).get p.2 := by
+  intro p hq
+  rw [hg, hg]
+  have hi := hA.inj p hq (u, f) hp
+  simp only at hi
+  by_cases e : p.1 = u
+  · rw [if_pos e, if_pos (hi.1 e)]
+  · rw [if_neg e, if_neg (fun e' => e (hi.2 e'))]
+    exact hA.cnt p hq
+
+theorem fl_cnt_dead (a : FSt) (hA : fl_AInv a) (d : Nat) (hd : d ∈ a.dead)
+    (g : AMap Nat Nat → Nat → AMap Nat Nat) (x : Option Nat)
+    (hg : ∀ (m : AMap Nat Nat) (k k' : Nat), (g m k).get k' = if k' = k then x else m.get k') :
+    ∀ p ∈ a.pairs, (g a.cU d).get p.1 = a.cF.get p.2 := by
+  intro p hq
+  rw [hg]
+  have : p.1 ≠ d := fun e => hA.alive p hq (e ▸ hd)
+  rw [if_neg this]
+  exact hA.cnt p hq
+
+section bridge
+variable (L : Option Nat) (sites : List CallSite) (a : FSt) (hA : fl_AInv a)
+include hA
+
+theorem fl_bridge_record (u f : Nat) (hp : (u, f) ∈ a.pairs) (v : RawVals) :
+    fl_Bridge L sites a [.record u v] [.record f v] a := by
+  refine ⟨hA, fun xs ys hxy => ?_⟩
+  simp only [List.cons_append, List.nil_append]
+  rw [fl_PU_record _ _ _ _ _ _ _ _ (hA.alive _ hp), fl_PF_record, fl_rename_eq a hA u f hp, hxy]
+
+theorem fl_bridge_enter (u f : Nat) (hp : (u, f) ∈ a.pairs) :
+    fl_Bridge L sites a [.enter u] [.enter f] a := by
+  refine ⟨hA, fun xs ys hxy => ?_⟩
+  simp only [List.cons_append, List.nil_append]
+  rw [fl_PU_enter _ _ _ _ _ _ _ (hA.alive _ hp), fl_PF_enter, fl_rename_eq a hA u f hp, hxy]
+
+theorem fl_bridge_exit (u f : Nat) (hp : (u, f) ∈ a.pairs) :
+    fl_Bridge L sites a [.exit u] [.exit f] a := by
+  refine ⟨hA, fun xs ys hxy => ?_⟩
+  simp only [List.cons_append, List.nil_append]
+  rw [fl_PU_exit _ _ _ _ _ _ _ (hA.alive _ hp), fl_PF_exit, fl_rename_eq a hA u f hp, hxy]
+
+theorem fl_bridge_follows (u f u' f' : Nat) (hp : (u, f) ∈ a.pairs) (hp' : (u', f') ∈ a.pairs) :
+    fl_Bridge L sites a [.follows u u'] [.follows f f'] a := by
+  refine ⟨hA, fun xs ys hxy => ?_⟩
+  simp only [List.cons_append, List.nil_append]
+  rw [fl_PU_follows _ _ _ _ _ _ _ _ (hA.alive _ hp) (hA.alive _ hp'), fl_PF_follows,
+    fl_rename_eq a hA u f hp, fl_rename_eq a hA u' f' hp', hxy]
+
+theorem fl_bridge_recordD (d : Nat) (hd : d ∈ a.dead) (v : RawVals) :
+    fl_Bridge L sites a [.record d v] [] a := by
+  refine ⟨hA, fun xs ys hxy => ?_⟩
+  simp only [List.cons_append, List.nil_append]
+  rw [fl_PU_recordD _ _ _ _ _ _ _ _ hd, hxy]
+
+theorem fl_bridge_enterD (d : Nat) (hd : d ∈ a.dead) :
+    fl_Bridge L sites a [.enter d] [] a := by
+  refine ⟨hA, fun xs ys hxy => ?_⟩
+  simp only [List.cons_append, List.nil_append]
+  rw [fl_PU_enterD _ _ _ _ _ _ _ hd, hxy]
+
+theorem fl_bridge_exitD (d : Nat) (hd : d ∈ a.dead) :
+    fl_Bridge L sites a [.exit d] [] a := by
+  refine ⟨hA, fun xs ys hxy => ?_⟩
+  simp only [List.cons_append, List.nil_append]
+  rw [fl_PU_exitD _ _ _ _ _ _ _ hd, hxy]
+
+theorem fl_bridge_followsD (x y : Nat) (hd : x ∈ a.dead ∨ y ∈ a.dead) :
+    fl_Bridge L sites a [.follows x y] [] a := by
+  refine ⟨hA, fun xs ys hxy => ?_⟩
+  simp only [List.cons_append, List.nil_append]
+  rw [fl_PU_followsD _ _ _ _ _ _ _ _ hd, hxy]
+
+theorem fl_bridge_evtEn (k : Nat) (pU pF : HParent) (v : RawVals) (h : siteEnabled L sites k = true) :
+    fl_Bridge L sites a [.event k pU v] [.event k pF v] a := by
+  refine ⟨hA, fun xs ys hxy => ?_⟩
+  simp only [List.cons_append, List.nil_append]
+  rw [fl_PU_evtEn _ _ _ _ _ _ _ _ _ h, fl_PF_evt, hxy]
+
+theorem fl_bridge_evtDis (k : Nat) (p : HParent) (v : RawVals) (h : siteEnabled L sites k = false) :
+    fl_Bridge L sites a [.event k p v] [] a := by
+  refine ⟨hA, fun xs ys hxy => ?_⟩
+  simp only [List.cons_append, List.nil_append]
+  rw [fl_PU_evtDis _ _ _ _ _ _ _ _ _ h, hxy]
+
+/-- The states reachable by operations that only touch handle counts. -/
+def fl_Same (a a' : FSt) : Prop :=
+  a'.nU = a.nU ∧ a'.nF = a.nF ∧ a'.pairs = a.pairs ∧ a'.dead = a.dead
+
+omit hA in
+theorem fl_same_refl : fl_Same a a := ⟨rfl, rfl, rfl, rfl⟩
+
+theorem fl_bridge_clone (u f : Nat) (hp : (u, f) ∈ a.pairs) :
+    ∃ a', fl_Same a a' ∧ fl_Bridge L sites a [.clone u] [.clone f] a' := by
+  have hc : (a.cU.get u).getD 0 = (a.cF.get f).getD 0 := by rw [hA.cnt _ hp]
+  refine ⟨{ a with cU := a.cU.insert u ((a.cU.get u).getD 0 + 1),
+                   cF := a.cF.insert f ((a.cU.get u).getD 0 + 1) }, ⟨rfl, rfl, rfl, rfl⟩, ?_, ?_⟩
+  · apply fl_ainv_cnt a hA
+    exact fl_cnt_pair a hA u f hp (fun m k => m.insert k ((a.cU.get u).getD 0 + 1)) _
+      (fun m k k' => AMap.get_insert m k k' _)
+  · intro xs ys hxy
+    simp only [List.cons_append, List.nil_append]
+    rw [fl_PU_clone, fl_PF_clone, ← hc]
+    exact hxy
+
+theorem fl_bridge_cloneD (d : Nat) (hd : d ∈ a.dead) :
+    ∃ a', fl_Same a a' ∧ fl_Bridge L sites a [.clone d] [] a' := by
+  refine ⟨{ a with cU := a.cU.insert d ((a.cU.get d).getD 0 + 1), cF := a.cF }, ⟨rfl, rfl, rfl, rfl⟩, ?_, ?_⟩
+  · apply fl_ainv_cnt a hA
+    exact fl_cnt_dead a hA d hd (fun m k => m.insert k ((a.cU.get d).getD 0 + 1)) _
+      (fun m k k' => AMap.get_insert m k k' _)
+  · intro xs ys hxy
+    simp only [List.cons_append, List.nil_append]
+    rw [fl_PU_clone]
+    exact hxy
+
+theorem fl_bridge_close (u f : Nat) (hp : (u, f) ∈ a.pairs) :
+    ∃ a', fl_Same a a' ∧ fl_Bridge L sites a [.tryClose u] [.tryClose f] a' := by
+  have hc : (a.cU.get u).getD 0 = (a.cF.get f).getD 0 := by rw [hA.cnt _ hp]
+  by_cases h0 : (a.cU.get u).getD 0 - 1 = 0
+  · refine ⟨{ a with cU := a.cU.erase u, cF := a.cF.erase f }, ⟨rfl, rfl, rfl, rfl⟩, ?_, ?_⟩
+    · apply fl_ainv_cnt a hA
+      exact fl_cnt_pair a hA u f hp (fun m k => m.erase k) none (fun m k k' => AMap.get_erase m k k')
+    · intro xs ys hxy
+      simp only [List.cons_append, List.nil_append]
+      rw [fl_PU_close _ _ _ _ _ _ _ (hA.alive _ hp), fl_PF_close, ← hc, if_pos h0, if_pos h0,
+        fl_rename_eq a hA u f hp]
+      simp only at hxy
+      rw [hxy]
+  · refine ⟨{ a with cU := a.cU.insert u ((a.cU.get u).getD 0 - 1),
+                     cF := a.cF.insert f ((a.cU.get u).getD 0 - 1) }, ⟨rfl, rfl, rfl, rfl⟩, ?_, ?_⟩
+    · apply fl_ainv_cnt a hA
+      exact fl_cnt_pair a hA u f hp (fun m k => m.insert k ((a.cU.get u).getD 0 - 1)) _
+        (fun m k k' => AMap.get_insert m k k' _)
+    · intro xs ys hxy
+      simp only [List.cons_append, List.nil_append]
+      rw [fl_PU_close _ _ _ _ _ _ _ (hA.alive _ hp), fl_PF_close, ← hc, if_neg h0, if_neg h0]
+      exact hxy
+
+theorem fl_bridge_closeD (d : Nat) (hd : d ∈ a.dead) :
+    ∃ a', fl_Same a a' ∧ fl_Bridge L sites a [.tryClose d] [] a' := by
+  refine ⟨{ a with cU := if (a.cU.get d).getD 0 - 1 = 0 then a.cU.erase d
+                         else a.cU.insert d ((a.cU.get d).getD 0 - 1), cF := a.cF },
+    ⟨rfl, rfl, rfl, rfl⟩, ?_, ?_⟩
+  · apply fl_ainv_cnt a hA
+    by_cases h0 : (a.cU.get d).getD 0 - 1 = 0
+    · rw [if_pos h0]
+      exact fl_cnt_dead a hA d hd (fun m k => m.erase k) none (fun m k k' => AMap.get_erase m k k')
+    · rw [if_neg h0]
+      exact fl_cnt_dead a hA d hd (fun m k => m.insert k ((a.cU.get d).getD 0 - 1)) _
+        (fun m k k' => AMap.get_insert m k k' _)
+  · intro xs ys hxy
+    simp only [List.cons_append, List.nil_append]
+    rw [fl_PU_closeD _ _ _ _ _ _ _ hd]
+    exact hxy
+
+end bridge
+
+
+/-- Handles of the two runs: same site; enabled handles carry corresponding ids; a disabled
+    handle is `none` in the filtered run and its unfiltered id is dead. -/
+def fl_HRel (L : Option Nat) (sites : List CallSite) (pairs : List (Nat × Nat)) (dead : List Nat) :
+    Option (Nat × Nat) → Option (Nat × Nat) → Prop
+  | none, none => True
+  | some (u, k), some (f, k') => k' = k ∧ siteEnabled L sites k = true ∧ (u, f) ∈ pairs
+  | some (u, k), none => siteEnabled L sites k = false ∧ u ∈ dead
+  | none, some _ => False
+
+theorem fl_hrel_mono (L sites) (pairs pairs' : List (Nat × Nat)) (dead dead' : List Nat)
+    (hp : pairs ⊆ pairs') (hd : dead ⊆ dead') (x y : Option (Nat × Nat))
+    (h : fl_HRel L sites pairs dead x y) : fl_HRel L sites pairs' dead' x y := by
+  cases x with
+  | none => cases y with
+    | none => trivial
+    | some fk => exact h
+  | some uk =>
+    obtain ⟨u, k⟩ := uk
+    cases y with
+    | none => exact ⟨h.1, hd h.2⟩
+    | some fk =>
+      obtain ⟨f, k'⟩ := fk
+      exact ⟨h.1, h.2.1, hp h.2.2⟩
+
+structure fl_FInv (L : Option Nat) (sites : List CallSite) (feU feF : FE NativeHost) (a : FSt) : Prop where
+  mU : feU.sub.maxLevel = none
+  mF : feF.sub.maxLevel = L
+  reg : feU.registered = feF.registered
+  nU : a.nU = feU.sub.host.next
+  nF : a.nF = feF.sub.host.next
+  len : feU.handles.length = feF.handles.length
+  hs : ∀ s, fl_HRel L sites a.pairs a.dead (feU.handleSite s) (feF.handleSite s)
+
+theorem fl_handles_push {α : Type} (hU hF : List (Option α)) (x y : Option α) (hlen : hU.length = hF.length)
+    (R : Option α → Option α → Prop) (hR : ∀ s : Nat, R (hU[s]?).join (hF[s]?).join) (hxy : R x y) :
+    ∀ s : Nat, R ((hU ++ [x])[s]?).join ((hF ++ [y])[s]?).join := by
+  intro s
+  by_cases h1 : s < hU.length
+  · rw [List.getElem?_append_left h1, List.getElem?_append_left (hlen ▸ h1)]
+    exact hR s
+  · by_cases h2 : s = hU.length
+    · subst h2
+      have e1 : (hU ++ [x])[hU.length]? = some x := by simp
+      have e2 : (hF ++ [y])[hU.length]? = some y := by rw [hlen]; simp
+      rw [e1, e2]
+      exact hxy
+    · have e1 : (hU ++ [x])[s]? = none := by
+        apply List.getElem?_eq_none; simp; omega
+      have e2 : (hF ++ [y])[s]? = none := by
+        apply List.getElem?_eq_none; simp; omega
+      have e3 : hU[s]? = none := List.getElem?_eq_none (by omega)
+      have e4 : hF[s]? = none := List.getElem?_eq_none (by omega)
+      have := hR s
+      rw [e3, e4] at this
+      rw [e1, e2]
+      exact this
+
+def fl_StepOK (L : Option Nat) (sites : List CallSite) (feU feF : FE NativeHost) (a : FSt)
+    (rU rF : FE NativeHost) : Prop :=
+  ∃ newU newF a', rU.sub.host.log = newU.reverse ++ feU.sub.host.log ∧
+    rF.sub.host.log = newF.reverse ++ feF.sub.host.log ∧
+    fl_FInv L sites rU rF a' ∧ fl_Bridge L sites a newU newF a'
+
+theorem fl_finish_same (L sites) (feU feF : FE NativeHost) (a : FSt) (hF : fl_FInv L sites feU feF a)
+    (rU rF : FE NativeHost) (newU newF : List HostCall) (regU regF : List Nat)
+    (pU : fl_Post feU rU newU 0 [] regU) (pF : fl_Post feF rF newF 0 [] regF) (hreg : regU = regF)
+    (a' : FSt) (hS : fl_Same a a') (hB : fl_Bridge L sites a newU newF a') :
+    fl_StepOK L sites feU feF a rU rF := by
+  obtain ⟨u1, u2, u3, u4, u5⟩ := pU
+  obtain ⟨f1, f2, f3, f4, f5⟩ := pF
+  obtain ⟨s1, s2, s3, s4⟩ := hS
+  refine ⟨newU, newF, a', u1, f1, ⟨?_, ?_, ?_, ?_, ?_, ?_, ?_⟩, hB⟩
+  · rw [u3, hF.mU]
+  · rw [f3, hF.mF]
+  · rw [u5, f5, hreg]
+  · rw [s1, u2, hF.nU]; rfl
+  · rw [s2, f2, hF.nF]; rfl
+  · rw [u4, f4]; simpa using hF.len
+  · intro s
+    have := hF.hs s
+    simp only [FE.handleSite] at this ⊢
+    rw [u4, f4, s3, s4]
+    simpa using this
+
+theorem fl_finish_push (L sites) (feU feF : FE NativeHost) (a : FSt) (hF : fl_FInv L sites feU feF a)
+    (rU rF : FE NativeHost) (newU newF : List HostCall) (dnU dnF : Nat) (x y : Option (Nat × Nat))
+    (regU regF : List Nat)
+    (pU : fl_Post feU rU newU dnU [x] regU) (pF : fl_Post feF rF newF dnF [y] regF) (hreg : regU = regF)
+    (a' : FSt) (hnU : a'.nU = a.nU + dnU) (hnF : a'.nF = a.nF + dnF)
+    (hp : a.pairs ⊆ a'.pairs) (hd : a.dead ⊆ a'.dead) (hxy : fl_HRel L sites a'.pairs a'.dead x y)
+    (hB : fl_Bridge L sites a newU newF a') :
+    fl_StepOK L sites feU feF a rU rF := by
+  obtain ⟨u1, u2, u3, u4, u5⟩ := pU
+  obtain ⟨f1, f2, f3, f4, f5⟩ := pF
+  refine ⟨newU, newF, a', u1, f1, ⟨?_, ?_, ?_, ?_, ?_, ?_, ?_⟩, hB⟩
+  · rw [u3, hF.mU]
+  · rw [f3, hF.mF]
+  · rw [u5, f5, hreg]
+  · rw [hnU, u2, hF.nU]
+  · rw [hnF, f2, hF.nF]
+  · rw [u4, f4]; simpa using hF.len
+  · simp only [FE.handleSite]
+    rw [u4, f4]
+    apply fl_handles_push _ _ _ _ hF.len _ _ hxy
+    intro s
+    exact fl_hrel_mono L sites _ _ _ _ hp hd _ _ (hF.hs s)
+
+theorem fl_enabledU (sites : List CallSite) (feU : FE NativeHost) (h : feU.sub.maxLevel = none) (k : Nat) :
+    levelEnabled feU.sub.maxLevel (sites.getD k default) = true := by
+  rw [h]; rfl
+
+/-- One program operation, both runs in lock step. -/
+theorem fl_step (L : Option Nat) (sites : List CallSite) (feU feF : FE NativeHost) (a : FSt) (op : POp)
+    (hF : fl_FInv L sites feU feF a) (hA : fl_AInv a) :
+    fl_StepOK L sites feU feF a (feStep nativeSub sites feU op) (feStep nativeSub sites feF op) := by
+  have hEF : ∀ k, levelEnabled feF.sub.maxLevel (sites.getD k default) = siteEnabled L sites k := by
+    intro k; rw [hF.mF]; rfl
+  cases op with
+  | reg k =>
+    exact fl_finish_same L sites feU feF a hF _ _ _ _ _ _ (fl_fe_reg sites feU k) (fl_fe_reg sites feF k)
+      (by rw [hF.reg]) a (fl_same_refl a) (fl_bridge_reg L sites a hA k)
+  | new k p vals =>
+    have pU := fl_fe_new_en sites feU k p vals (fl_enabledU sites feU hF.mU k)
+    cases he : siteEnabled L sites k with
+    | true =>
+      have pF := fl_fe_new_en sites feF k p vals (by rw [hEF, he])
+      have hB := fl_bridge_trans L sites _ _ _ _ _ _ _ (fl_bridge_regCalls L sites a hA feU.registered k)
+        (fl_bridge_newEn L sites a hA k (fl_par sites feU k p) (fl_par sites feF k p)
+          (presentRaw (fieldsOf (sites.getD k default) vals)) he)
+      rw [hF.nU, hF.nF] at hB
+      rw [← hF.reg] at pF
+      refine fl_finish_push L sites feU feF a hF _ _ _ _ _ _ _ _ _ _ pU pF rfl _ (by rw [hF.nU]) (by rw [hF.nF]) ?_ ?_ ?_ hB
+      · exact fun x hx => List.mem_cons_of_mem _ hx
+      · exact fun x hx => hx
+      · exact ⟨rfl, he, List.mem_cons_self⟩
+    | false =>
+      have pF := fl_fe_new_dis sites feF k p vals (by rw [hEF, he])
+      have hB := fl_bridge_trans L sites _ _ _ _ _ _ _ (fl_bridge_regCalls L sites a hA feU.registered k)
+        (fl_bridge_newDis L sites a hA k (fl_par sites feU k p)
+          (presentRaw (fieldsOf (sites.getD k default) vals)) he)
+      rw [hF.nU, List.append_nil] at hB
+      rw [← hF.reg] at pF
+      refine fl_finish_push L sites feU feF a hF _ _ _ _ _ _ _ _ _ _ pU pF rfl _ (by rw [hF.nU]) (by rfl) ?_ ?_ ?_ hB
+      · exact fun x hx => hx
+      · exact fun x hx => List.mem_cons_of_mem _ hx
+      · exact ⟨he, List.mem_cons_self⟩
+  | evt k p vals =>
+    have pU := fl_fe_evt_en sites feU k p vals (fl_enabledU sites feU hF.mU k)
+    cases he : siteEnabled L sites k with
+    | true =>
+      have pF := fl_fe_evt_en sites feF k p vals (by rw [hEF, he])
+      have hB := fl_bridge_trans L sites _ _ _ _ _ _ _ (fl_bridge_regCalls L sites a hA feU.registered k)
+        (fl_bridge_evtEn L sites a hA k (fl_par sites feU k p) (fl_par sites feF k p)
+          (presentRaw (fieldsOf (sites.getD k default) vals)) he)
+      rw [← hF.reg] at pF
+      exact fl_finish_same L sites feU feF a hF _ _ _ _ _ _ pU pF rfl a (fl_same_refl a) hB
+    | false =>
+      have pF := fl_fe_evt_dis sites feF k p vals (by rw [hEF, he])
+      have hB := fl_bridge_trans L sites _ _ _ _ _ _ _ (fl_bridge_regCalls L sites a hA feU.registered k)
+        (fl_bridge_evtDis L sites a hA k (fl_par sites feU k p)
+          (presentRaw (fieldsOf (sites.getD k default) vals)) he)
+      rw [List.append_nil] at hB
+      rw [← hF.reg] at pF
+      exact fl_finish_same L sites feU feF a hF _ _ _ _ _ _ pU pF rfl a (fl_same_refl a) hB
+  | record s vals =>
+    have hr := hF.hs s
+    cases hU : feU.handleSite s with
+    | none =>
+      cases hFh : feF.handleSite s with
+      | none =>
+        exact fl_finish_same L sites feU feF a hF _ _ _ _ _ _ (fl_fe_record_none sites feU s vals hU)
+          (fl_fe_record_none sites feF s vals hFh) hF.reg a (fl_same_refl a) (fl_bridge_refl L sites a hA)
+      | some fk => rw [hU, hFh] at hr; exact hr.elim
+    | some uk =>
+      obtain ⟨u, k⟩ := uk
+      cases hFh : feF.handleSite s with
+      | none =>
+        rw [hU, hFh] at hr
+        exact fl_finish_same L sites feU feF a hF _ _ _ _ _ _ (fl_fe_record_some sites feU s vals u k hU)
+          (fl_fe_record_none sites feF s vals hFh) hF.reg a (fl_same_refl a)
+          (fl_bridge_recordD L sites a hA u hr.2 _)
+      | some fk =>
+        obtain ⟨f, k'⟩ := fk
+        rw [hU, hFh] at hr
+        obtain ⟨rfl, _, hp⟩ := hr
+        exact fl_finish_same L sites feU feF a hF _ _ _ _ _ _ (fl_fe_record_some sites feU s vals u _ hU)
+          (fl_fe_record_some sites feF s vals f _ hFh) hF.reg a (fl_same_refl a)
+          (fl_bridge_record L sites a hA u f hp _)
+  | ent s =>
+    have hr := hF.hs s
+    cases hU : feU.handleSite s with
+    | none =>
+      cases hFh : feF.handleSite s with
+      | none =>
+        exact fl_finish_same L sites feU feF a hF _ _ _ _ _ _ (fl_fe_ent_none sites feU s hU)
+          (fl_fe_ent_none sites feF s hFh) hF.reg a (fl_same_refl a) (fl_bridge_refl L sites a hA)
+      | some fk => rw [hU, hFh] at hr; exact hr.elim
+    | some uk =>
+      obtain ⟨u, k⟩ := uk
+      cases hFh : feF.handleSite s with
+      | none =>
+        rw [hU, hFh] at hr
+        exact fl_finish_same L sites feU feF a hF _ _ _ _ _ _ (fl_fe_ent_some sites feU s u k hU)
+          (fl_fe_ent_none sites feF s hFh) hF.reg a (fl_same_refl a)
+          (fl_bridge_enterD L sites a hA u hr.2)
+      | some fk =>
+        obtain ⟨f, k'⟩ := fk
+        rw [hU, hFh] at hr
+        obtain ⟨rfl, _, hp⟩ := hr
+        exact fl_finish_same L sites feU feF a hF _ _ _ _ _ _ (fl_fe_ent_some sites feU s u _ hU)
+          (fl_fe_ent_some sites feF s f _ hFh) hF.reg a (fl_same_refl a)
+          (fl_bridge_enter L sites a hA u f hp)
+  | ext s =>
+    have hr := hF.hs s
+    cases hU : feU.handleSite s with
+    | none =>
+      cases hFh : feF.handleSite s with
+      | none =>
+        exact fl_finish_same L sites feU feF a hF _ _ _ _ _ _ (fl_fe_ext_none sites feU s hU)
+          (fl_fe_ext_none sites feF s hFh) hF.reg a (fl_same_refl a) (fl_bridge_refl L sites a hA)
+      | some fk => rw [hU, hFh] at hr; exact hr.elim
+    | some uk =>
+      obtain ⟨u, k⟩ := uk
+      cases hFh : feF.handleSite s with
+      | none =>
+        rw [hU, hFh] at hr
+        exact fl_finish_same L sites feU feF a hF _ _ _ _ _ _ (fl_fe_ext_some sites feU s u k hU)
+          (fl_fe_ext_none sites feF s hFh) hF.reg a (fl_same_refl a)
+          (fl_bridge_exitD L sites a hA u hr.2)
+      | some fk =>
+        obtain ⟨f, k'⟩ := fk
+        rw [hU, hFh] at hr
+        obtain ⟨rfl, _, hp⟩ := hr
+        exact fl_finish_same L sites feU feF a hF _ _ _ _ _ _ (fl_fe_ext_some sites feU s u _ hU)
+          (fl_fe_ext_some sites feF s f _ hFh) hF.reg a (fl_same_refl a)
+          (fl_bridge_exit L sites a hA u f hp)
+  | drp s =>
+    have hr := hF.hs s
+    cases hU : feU.handleSite s with
+    | none =>
+      cases hFh : feF.handleSite s with
+      | none =>
+        exact fl_finish_same L sites feU feF a hF _ _ _ _ _ _ (fl_fe_drp_none sites feU s hU)
+          (fl_fe_drp_none sites feF s hFh) hF.reg a (fl_same_refl a) (fl_bridge_refl L sites a hA)
+      | some fk => rw [hU, hFh] at hr; exact hr.elim
+    | some uk =>
+      obtain ⟨u, k⟩ := uk
+      cases hFh : feF.handleSite s with
+      | none =>
+        rw [hU, hFh] at hr
+        obtain ⟨a', hS, hB⟩ := fl_bridge_closeD L sites a hA u hr.2
+        exact fl_finish_same L sites feU feF a hF _ _ _ _ _ _ (fl_fe_drp_some sites feU s u k hU)
+          (fl_fe_drp_none sites feF s hFh) hF.reg a' hS hB
+      | some fk =>
+        obtain ⟨f, k'⟩ := fk
+        rw [hU, hFh] at hr
+        obtain ⟨rfl, _, hp⟩ := hr
+        obtain ⟨a', hS, hB⟩ := fl_bridge_close L sites a hA u f hp
+        exact fl_finish_same L sites feU feF a hF _ _ _ _ _ _ (fl_fe_drp_some sites feU s u _ hU)
+          (fl_fe_drp_some sites feF s f _ hFh) hF.reg a' hS hB
+  | cln s =>
+    have hr := hF.hs s
+    cases hU : feU.handleSite s with
+    | none =>
+      cases hFh : feF.handleSite s with
+      | none =>
+        exact fl_finish_push L sites feU feF a hF _ _ _ _ _ _ _ _ _ _ (fl_fe_cln_none sites feU s hU)
+          (fl_fe_cln_none sites feF s hFh) hF.reg a rfl rfl (fun x hx => hx) (fun x hx => hx) trivial
+          (fl_bridge_refl L sites a hA)
+      | some fk => rw [hU, hFh] at hr; exact hr.elim
+    | some uk =>
+      obtain ⟨u, k⟩ := uk
+      cases hFh : feF.handleSite s with
+      | none =>
+        rw [hU, hFh] at hr
+        obtain ⟨a', ⟨s1, s2, s3, s4⟩, hB⟩ := fl_bridge_cloneD L sites a hA u hr.2
+        refine fl_finish_push L sites feU feF a hF _ _ _ _ _ _ _ _ _ _ (fl_fe_cln_some sites feU s u k hU)
+          (fl_fe_cln_none sites feF s hFh) hF.reg a' s1 s2 (by rw [s3]; exact fun x hx => hx)
+          (by rw [s4]; exact fun x hx => hx) ?_ hB
+        rw [s3, s4]; exact hr
+      | some fk =>
+        obtain ⟨f, k'⟩ := fk
+        rw [hU, hFh] at hr
+        obtain ⟨a', ⟨s1, s2, s3, s4⟩, hB⟩ := fl_bridge_clone L sites a hA u f hr.2.2
+        refine fl_finish_push L sites feU feF a hF _ _ _ _ _ _ _ _ _ _ (fl_fe_cln_some sites feU s u k hU)
+          (fl_fe_cln_some sites feF s f k' hFh) hF.reg a' s1 s2 (by rw [s3]; exact fun x hx => hx)
+          (by rw [s4]; exact fun x hx => hx) ?_ hB
+        rw [s3, s4]; exact hr
+  | fol s t =>
+    have hrs := hF.hs s
+    have hrt := hF.hs t
+    cases hUs : feU.handleSite s with
+    | none =>
+      cases hFs : feF.handleSite s with
+      | none =>
+        exact fl_finish_same L sites feU feF a hF _ _ _ _ _ _ (fl_fe_fol_none sites feU s t (Or.inl hUs))
+          (fl_fe_fol_none sites feF s t (Or.inl hFs)) hF.reg a (fl_same_refl a) (fl_bridge_refl L sites a hA)
+      | some fk => rw [hUs, hFs] at hrs; exact hrs.elim
+    | some uk =>
+      obtain ⟨u, k⟩ := uk
+      cases hUt : feU.handleSite t with
+      | none =>
+        cases hFt : feF.handleSite t with
+        | none =>
+          exact fl_finish_same L sites feU feF a hF _ _ _ _ _ _ (fl_fe_fol_none sites feU s t (Or.inr hUt))
+            (fl_fe_fol_none sites feF s t (Or.inr hFt)) hF.reg a (fl_same_refl a) (fl_bridge_refl L sites a hA)
+        | some fk => rw [hUt, hFt] at hrt; exact hrt.elim
+      | some uk' =>
+        obtain ⟨u', k'⟩ := uk'
+        have pU := fl_fe_fol_some sites feU s t u k u' k' hUs hUt
+        cases hFs : feF.handleSite s with
+        | none =>
+          rw [hUs, hFs] at hrs
+          exact fl_finish_same L sites feU feF a hF _ _ _ _ _ _ pU
+            (fl_fe_fol_none sites feF s t (Or.inl hFs)) hF.reg a (fl_same_refl a)
+            (fl_bridge_followsD L sites a hA u u' (Or.inl hrs.2))
+        | some fk =>
+          obtain ⟨f, kf⟩ := fk
+          rw [hUs, hFs] at hrs
+          cases hFt : feF.handleSite t with
+          | none =>
+            rw [hUt, hFt] at hrt
+            exact fl_finish_same L sites feU feF a hF _ _ _ _ _ _ pU
+              (fl_fe_fol_none sites feF s t (Or.inr hFt)) hF.reg a (fl_same_refl a)
+              (fl_bridge_followsD L sites a hA u u' (Or.inr hrt.2))
+          | some fk' =>
+            obtain ⟨f', kf'⟩ := fk'
+            rw [hUt, hFt] at hrt
+            exact fl_finish_same L sites feU feF a hF _ _ _ _ _ _ pU
+              (fl_fe_fol_some sites feF s t f kf f' kf' hFs hFt) hF.reg a (fl_same_refl a)
+              (fl_bridge_follows L sites a hA u f u' f' hrs.2.2 hrt.2.2)
+
+theorem fl_run (L : Option Nat) (sites : List CallSite) (ops : List POp) :
+    ∀ (feU feF : FE NativeHost) (a : FSt), fl_FInv L sites feU feF a → fl_AInv a →
+      ∃ outU outF, (runProg nativeSub sites feU ops).sub.host.log = outU.reverse ++ feU.sub.host.log ∧
+        (runProg nativeSub sites feF ops).sub.host.log = outF.reverse ++ feF.sub.host.log ∧
+        fl_PU L sites a.cU a.dead a.rU outU = fl_PF sites a.cF a.rF outF := by
+  induction ops with
+  | nil =>
+    intro feU feF a _ _
+    exact ⟨[], [], rfl, rfl, rfl⟩
+  | cons op ops ih =>
+    intro feU feF a hF hA
+    obtain ⟨newU, newF, a', hlU, hlF, hF', hB⟩ := fl_step L sites feU feF a op hF hA
+    obtain ⟨outU, outF, hoU, hoF, heq⟩ := ih _ _ a' hF' hB.1
+    refine ⟨newU ++ outU, newF ++ outF, ?_, ?_, hB.2 _ _ heq⟩
+    · simp only [runProg, List.foldl_cons] at hoU ⊢
+      rw [hoU, hlU]; simp
+    · simp only [runProg, List.foldl_cons] at hoF ⊢
+      rw [hoF, hlF]; simp
+
 /-- Every span and event the host enables is delivered with its call site, values and
     enter/exit/close history, in order. -/
 theorem C13_faithful (maxLevel : Option Nat) (arena sites : List CallSite) (ops : List POp)
     (hwf : wfProg sites ops = true) (hs : sitesDistinct sites) (hb : spansCreated ops < 2^32 - 1) :
     renumberFrom [] ((eraseDisabledFrom maxLevel sites [] (tunnelLog arena sites ops)).map (·.maskParent))
       = renumberFrom [] ((rcNormalizeFrom [] ((nativeLogFiltered maxLevel sites ops).map (·.widen))).map (·.maskParent)) := by
-  sorry
+  rw [C01_log_simulation arena sites ops hwf hs hb]
+  have h0F : fl_FInv maxLevel sites { sub := ({ maxLevel := none } : NativeHost) }
+      { sub := ({ maxLevel } : NativeHost) } ⟨1, 1, [], [], [], [], [], []⟩ :=
+    ⟨rfl, rfl, rfl, rfl, rfl, rfl, fun s => by simp [FE.handleSite, fl_HRel]⟩
+  have h0A : fl_AInv ⟨1, 1, [], [], [], [], [], []⟩ :=
+    ⟨fun _ h => absurd h List.not_mem_nil, fun _ h _ _ => absurd h List.not_mem_nil,
+      fun _ h => absurd h List.not_mem_nil, fun _ h => absurd h List.not_mem_nil,
+      fun _ h => absurd h List.not_mem_nil, fun _ h => absurd h List.not_mem_nil, rfl,
+      fun _ _ => rfl, fun _ _ => rfl⟩
+  obtain ⟨outU, outF, hU, hF, heq⟩ := fl_run maxLevel sites ops _ _ _ h0F h0A
+  have eU : (nativeRun none sites ops).log.reverse = outU := by
+    unfold nativeRun
+    rw [hU]; simp
+  have eF : (nativeRun maxLevel sites ops).log.reverse = outF := by
+    unfold nativeRun
+    rw [hF]; simp
+  unfold nativeLog nativeLogFiltered
+  rw [eU, eF]
+  exact heq
 
 /-- Non-vacuity: an enabled child of a disabled parent, an enabled event inside a disabled span,
     clones and closes, under a host filtered at INFO. -/
